@@ -201,7 +201,7 @@ impl<K, V> RecursiveContext<K, V> where K: Hash + Eq + Debug + Clone, V: Debug +
 impl<K, V> RecursiveContext<K, V> where K: Hash + Eq + Debug + Clone, V: Debug + Clone + PartialEq {
 
 // ------------------------------------------------------------- real function
-//@FN file=chalk-recursive/src/fixed_point.rs within="^impl<K, V> RecursiveContext<K, V> where" fn=solve_new_subgoal contract=fixed_point loopinv=fp_loop fnattrs="#[verifier::exec_allows_no_decreases_clause]" path=RecursiveContext::solve_new_subgoal
+//@FN file=chalk-recursive/src/fixed_point.rs within="^impl<K, V> RecursiveContext<K, V> where" fn=solve_new_subgoal contract=fixed_point loopinv=fp_loop loopform="loop" fnattrs="#[verifier::exec_allows_no_decreases_clause]" path=RecursiveContext::solve_new_subgoal
 }
 
 //@CONTRACT fixed_point
